@@ -108,8 +108,8 @@ func validResponse() []byte {
 
 func hsFamilies(w *world) []*Family {
 	var fams []*Family
-	add := func(name string, cost int, gen func(thorough bool, emit func(Case))) {
-		fams = append(fams, &Family{Name: "hs/" + name, Cost: cost, Gen: func(_ *world, th bool, emit func(Case)) { gen(th, emit) }})
+	add := func(name string, cost int, gen func(thorough bool, emit func(func() Case))) {
+		fams = append(fams, &Family{Name: "hs/" + name, Cost: cost, Gen: func(_ *world, th bool, emit func(func() Case)) { gen(th, emit) }})
 	}
 	roles := []struct {
 		n      string
@@ -132,37 +132,37 @@ func hsFamilies(w *world) []*Family {
 		one := func(name string, b func() []byte, end error) Case {
 			return hs(name, func() [][]byte { return [][]byte{b()} }, end)
 		}
-		add(r.n+"/valid", 8, func(th bool, emit func(Case)) {
+		add(r.n+"/valid", 8, func(th bool, emit func(func() Case)) {
 			for _, e := range ends {
-				emit(one(fmt.Sprintf("hs/%s/valid/then-%s", r.n, e.n), r.valid, e.e))
+				emit(func() Case { return one(fmt.Sprintf("hs/%s/valid/then-%s", r.n, e.n), r.valid, e.e) })
 			}
 			// identities: a deputy, the node itself, the all-zero nonce
 			for _, id := range []string{"d1", "d0", "outsider"} {
 				id := id
-				emit(one(fmt.Sprintf("hs/%s/valid/identity=%s", r.n, id), func() []byte {
+				emit(func() Case { return one(fmt.Sprintf("hs/%s/valid/identity=%s", r.n, id), func() []byte {
 					if r.client {
 						return r.valid()
 					}
 					return packet(seal(nodePub(), remoteEph().Priv, enc(clientHello(node.K(id).Priv, remoteRnd().Priv, nodePub(), fixedNonce))))
-				}, errTimeout))
+				}, errTimeout) })
 			}
 			// the same valid packet twice, and followed by a frame
-			emit(hs(fmt.Sprintf("hs/%s/valid/twice", r.n), func() [][]byte { return [][]byte{r.valid(), r.valid()} }, errTimeout))
+			emit(func() Case { return hs(fmt.Sprintf("hs/%s/valid/twice", r.n), func() [][]byte { return [][]byte{r.valid(), r.valid()} }, errTimeout) })
 		})
-		add(r.n+"/prefix", 2, func(th bool, emit func(Case)) {
+		add(r.n+"/prefix", 2, func(th bool, emit func(func() Case)) {
 			n := len(r.valid())
 			for cut := 0; cut < n; cut++ {
 				for _, e := range ends {
 					cut, e := cut, e
-					emit(one(fmt.Sprintf("hs/%s/prefix/cut=%03d/then-%s", r.n, cut, e.n), func() []byte { return r.valid()[:cut] }, e.e))
+					emit(func() Case { return one(fmt.Sprintf("hs/%s/prefix/cut=%03d/then-%s", r.n, cut, e.n), func() []byte { return r.valid()[:cut] }, e.e) })
 				}
 			}
 		})
-		add(r.n+"/split", 8, func(th bool, emit func(Case)) {
+		add(r.n+"/split", 8, func(th bool, emit func(func() Case)) {
 			n := len(r.valid())
 			for a := 0; a <= n; a++ {
 				a := a
-				emit(hs(fmt.Sprintf("hs/%s/split/2/at=%03d", r.n, a), func() [][]byte { v := r.valid(); return [][]byte{v[:a], v[a:]} }, errTimeout))
+				emit(func() Case { return hs(fmt.Sprintf("hs/%s/split/2/at=%03d", r.n, a), func() [][]byte { v := r.valid(); return [][]byte{v[:a], v[a:]} }, errTimeout) })
 			}
 			lim := 8
 			if th {
@@ -171,30 +171,30 @@ func hsFamilies(w *world) []*Family {
 			for a := 0; a <= lim; a++ {
 				for b := a; b <= lim; b++ {
 					a, b := a, b
-					emit(hs(fmt.Sprintf("hs/%s/split/3/at=%03d,%03d", r.n, a, b), func() [][]byte { v := r.valid(); return [][]byte{v[:a], v[a:b], v[b:]} }, errTimeout))
+					emit(func() Case { return hs(fmt.Sprintf("hs/%s/split/3/at=%03d,%03d", r.n, a, b), func() [][]byte { v := r.valid(); return [][]byte{v[:a], v[a:b], v[b:]} }, errTimeout) })
 				}
 			}
-			emit(hs(fmt.Sprintf("hs/%s/split/bytewise", r.n), func() [][]byte {
+			emit(func() Case { return hs(fmt.Sprintf("hs/%s/split/bytewise", r.n), func() [][]byte {
 				v := r.valid()
 				var ch [][]byte
 				for i := range v {
 					ch = append(ch, v[i:i+1])
 				}
 				return ch
-			}, errTimeout))
+			}, errTimeout) })
 		})
-		add(r.n+"/magic", 1, func(th bool, emit func(Case)) {
+		add(r.n+"/magic", 1, func(th bool, emit func(func() Case)) {
 			for pos := 0; pos < 2; pos++ {
 				for v := 0; v < 256; v++ {
 					pos, v := pos, v
 					if byte(v) == magic[pos] {
 						continue
 					}
-					emit(one(fmt.Sprintf("hs/%s/magic/pos=%d/val=%02x", r.n, pos, v), func() []byte { return withByte(r.valid(), pos, byte(v)) }, errTimeout))
+					emit(func() Case { return one(fmt.Sprintf("hs/%s/magic/pos=%d/val=%02x", r.n, pos, v), func() []byte { return withByte(r.valid(), pos, byte(v)) }, errTimeout) })
 				}
 			}
 		})
-		add(r.n+"/len", 6, func(th bool, emit func(Case)) {
+		add(r.n+"/len", 6, func(th bool, emit func(func() Case)) {
 			// the length field against what follows; nothing is authenticated yet, so the 64 KiB limit of
 			// the handshake reader is all that may be allocated on the remote's word
 			n := uint32(len(r.valid()) - 6)
@@ -206,7 +206,7 @@ func hsFamilies(w *world) []*Family {
 						if follow == "as-declared-zeros" && d > 1<<20 {
 							continue
 						}
-						emit(one(fmt.Sprintf("hs/%s/len/declared=%d/%s/then-%s", r.n, d, follow, e.n), func() []byte {
+						emit(func() Case { return one(fmt.Sprintf("hs/%s/len/declared=%d/%s/then-%s", r.n, d, follow, e.n), func() []byte {
 							var body []byte
 							switch follow {
 							case "valid-body":
@@ -215,22 +215,22 @@ func hsFamilies(w *world) []*Family {
 								body = make([]byte, d)
 							}
 							return packetLen(d, body)
-						}, e.e))
+						}, e.e) })
 					}
 				}
 			}
 		})
-		add(r.n+"/mut", 6, func(th bool, emit func(Case)) {
+		add(r.n+"/mut", 6, func(th bool, emit func(func() Case)) {
 			// single byte mutations of the whole packet (magic, length, ephemeral key, ciphertext, tag)
 			v0 := r.valid()
 			for pos := range v0 {
 				for _, v := range byteVals(v0[pos], th) {
 					pos, v := pos, v
-					emit(one(fmt.Sprintf("hs/%s/mut/pos=%03d/val=%02x", r.n, pos, v), func() []byte { return withByte(r.valid(), pos, v) }, errTimeout))
+					emit(func() Case { return one(fmt.Sprintf("hs/%s/mut/pos=%03d/val=%02x", r.n, pos, v), func() []byte { return withByte(r.valid(), pos, v) }, errTimeout) })
 				}
 			}
 		})
-		add(r.n+"/sealed-em", 6, func(th bool, emit func(Case)) {
+		add(r.n+"/sealed-em", 6, func(th bool, emit func(func() Case)) {
 			// correctly authenticated envelopes whose encrypted part has every length 0..48 (shorter
 			// than the cipher's block: no IV) and a few larger ones
 			lens := []int{}
@@ -241,35 +241,35 @@ func hsFamilies(w *world) []*Family {
 			for _, l := range lens {
 				for _, fill := range []byte{0x00, 0xc0, 0xff} {
 					l, fill := l, fill
-					emit(one(fmt.Sprintf("hs/%s/sealed-em/len=%05d/fill=%02x", r.n, l, fill), func() []byte {
+					emit(func() Case { return one(fmt.Sprintf("hs/%s/sealed-em/len=%05d/fill=%02x", r.n, l, fill), func() []byte {
 						return packet(sealEM(nodePub(), remoteEph().Priv, bytes.Repeat([]byte{fill}, l)))
-					}, errTimeout))
+					}, errTimeout) })
 				}
 			}
 			// ephemeral key formats: compressed / hybrid markers, point not on the curve, infinity
 			for _, first := range []byte{0x00, 0x02, 0x03, 0x04, 0x05, 0x06, 0x07} {
 				first := first
-				emit(one(fmt.Sprintf("hs/%s/sealed-em/ephemeral-marker=%02x", r.n, first), func() []byte {
+				emit(func() Case { return one(fmt.Sprintf("hs/%s/sealed-em/ephemeral-marker=%02x", r.n, first), func() []byte {
 					return packet(withByte(seal(nodePub(), remoteEph().Priv, r.plain()), 0, first))
-				}, errTimeout))
+				}, errTimeout) })
 			}
-			emit(one(fmt.Sprintf("hs/%s/sealed-em/ephemeral=zero-point", r.n), func() []byte {
+			emit(func() Case { return one(fmt.Sprintf("hs/%s/sealed-em/ephemeral=zero-point", r.n), func() []byte {
 				e := seal(nodePub(), remoteEph().Priv, r.plain())
 				for i := 1; i < 65; i++ {
 					e[i] = 0
 				}
 				return packet(e)
-			}, errTimeout))
+			}, errTimeout) })
 		})
-		add(r.n+"/plain-trunc", 6, func(th bool, emit func(Case)) {
+		add(r.n+"/plain-trunc", 6, func(th bool, emit func(func() Case)) {
 			// correctly sealed plaintexts: every truncation of the RLP
 			p := r.plain()
 			for cut := 0; cut <= len(p); cut++ {
 				cut := cut
-				emit(one(fmt.Sprintf("hs/%s/plain-trunc/cut=%03d", r.n, cut), func() []byte { return packet(seal(nodePub(), remoteEph().Priv, r.plain()[:cut])) }, errTimeout))
+				emit(func() Case { return one(fmt.Sprintf("hs/%s/plain-trunc/cut=%03d", r.n, cut), func() []byte { return packet(seal(nodePub(), remoteEph().Priv, r.plain()[:cut])) }, errTimeout) })
 			}
 		})
-		add(r.n+"/plain-mut", 8, func(th bool, emit func(Case)) {
+		add(r.n+"/plain-mut", 8, func(th bool, emit func(func() Case)) {
 			// correctly sealed plaintexts: single byte mutations of the RLP (signature, keys, nonce, headers)
 			p := r.plain()
 			for pos := range p {
@@ -284,20 +284,20 @@ func hsFamilies(w *world) []*Family {
 						continue
 					}
 					pos, v := pos, v
-					emit(one(fmt.Sprintf("hs/%s/plain-mut/pos=%03d/val=%02x", r.n, pos, v), func() []byte { return packet(seal(nodePub(), remoteEph().Priv, withByte(r.plain(), pos, v))) }, errTimeout))
+					emit(func() Case { return one(fmt.Sprintf("hs/%s/plain-mut/pos=%03d/val=%02x", r.n, pos, v), func() []byte { return packet(seal(nodePub(), remoteEph().Priv, withByte(r.plain(), pos, v))) }, errTimeout) })
 				}
 			}
 		})
-		add(r.n+"/plain-rlp", 6, func(th bool, emit func(Case)) {
+		add(r.n+"/plain-rlp", 6, func(th bool, emit func(func() Case)) {
 			for _, p := range rlpPayloads(th) {
 				if len(p.b) > 60000 {
 					continue
 				}
 				p := p
-				emit(one(fmt.Sprintf("hs/%s/plain-rlp/%s", r.n, p.name), func() []byte { return packet(seal(nodePub(), remoteEph().Priv, p.b)) }, errTimeout))
+				emit(func() Case { return one(fmt.Sprintf("hs/%s/plain-rlp/%s", r.n, p.name), func() []byte { return packet(seal(nodePub(), remoteEph().Priv, p.b)) }, errTimeout) })
 			}
 		})
-		add(r.n+"/plain-shape", 8, func(th bool, emit func(Case)) {
+		add(r.n+"/plain-shape", 8, func(th bool, emit func(func() Case)) {
 			// well-formed RLP of the right shape with absurd field values
 			type shape struct {
 				n string
@@ -358,7 +358,7 @@ func hsFamilies(w *world) []*Family {
 			}
 			for _, s := range shapes {
 				s := s
-				emit(one(fmt.Sprintf("hs/%s/plain-shape/%s", r.n, s.n), func() []byte { return packet(seal(nodePub(), remoteEph().Priv, s.b())) }, errTimeout))
+				emit(func() Case { return one(fmt.Sprintf("hs/%s/plain-shape/%s", r.n, s.n), func() []byte { return packet(seal(nodePub(), remoteEph().Priv, s.b())) }, errTimeout) })
 			}
 		})
 	}
